@@ -470,7 +470,7 @@ def query_op(g, paths, qpool=None):
         return
     qi = r.choice(qpool) if qpool else (r.randrange(len(QUERIES)) if r.random() < 0.55 else r.randrange(24))
     path = r.choice(paths)
-    arg = r.choice(BATCH_SIZES) if path in (3, 10) else (r.randrange(40) + (1000 if r.random() < 0.15 else 0)) if path in (9, 11) else 0
+    arg = r.choice(BATCH_SIZES) if path in (3, 10) else (r.randrange(40) + (1000 if r.random() < 0.3 else 0)) if path in (9, 11) else 0
     g.emit(30, w, qi, path, arg, len(QASTS[qi]), QASTS[qi])
 
 
@@ -478,6 +478,21 @@ def world_case(universe, rnd, profile, nops, probe_every=1, qpaths=None, qrate=0
     g = WorldGen(rnd, profile if profile in WorldGen.PROFILES else "default")
     if profile in ("query", "prepared"):
         g.small = True            # queries range over types 0..3
+    if qpaths and profile == "reserve" and rnd.random() < 0.35:
+        # a prepared query (and view) that matches entities without components is used while there are none, then
+        # reservations are made real without any archetype being added, then it is used again
+        qi = rnd.choice([0, 0] + [k for k in range(24)])
+        paths = [p for p in qpaths if p in (4, 5, 6)] or [4]
+        for _ in range(rnd.randrange(0, 3)):
+            g.step()
+        g.emit(30, 0, qi, rnd.choice(paths), 0, len(QASTS[qi]), QASTS[qi])
+        n = rnd.choice([1, 2, 3])
+        g.emit(11, 0, n); g.add(0, False, (), reserved=True, n=n)
+        if rnd.random() < 0.5:
+            g.emit(30, 0, qi, rnd.choice(paths), 0, len(QASTS[qi]), QASTS[qi])
+        g.emit(12, 0); g.materialise(0)
+        g.emit(30, 0, qi, rnd.choice(paths), 0, len(QASTS[qi]), QASTS[qi])
+        g.probe()
     for i in range(nops):
         g.step()
         if qpaths and rnd.random() < qrate:
@@ -990,16 +1005,21 @@ def tracker_case(rnd, rounds):
     for _ in range(rounds):
         for _ in range(rnd.randrange(0, 9)):
             k = rnd.random()
-            if k < 0.25 or nh == 0:
+            if k < 0.22 or nh == 0:
                 c += [1, rnd.randrange(0, 4)]; nh += 1
-            elif k < 0.35:
+            elif k < 0.30:
                 c += [2]; nh += 1
-            elif k < 0.65:
+            elif k < 0.37:
+                n = rnd.choice([2, 2, 3, 4])                         # one column batch taking several (freed) ids at once
+                c += [7, n, rnd.randrange(0, 4)]; nh += n
+            elif k < 0.62:
                 c += [3, rnd.randrange(nh), rnd.randrange(0, 4)]     # overwrite with equal or different value
-            elif k < 0.85:
+            elif k < 0.80:
                 c += [4, rnd.randrange(nh)]                          # remove (then maybe re-add later)
-            else:
+            elif k < 0.93:
                 c += [5, rnd.randrange(nh)]                          # despawn; the id may be reused by a spawn
+            else:
+                c += [8, rnd.randrange(nh), rnd.randrange(0, 4)]     # spawn_at on a dead handle (no-op on a live one)
         # consumption script: any subset and order of added/changed/removed, fully, partially or not at all
         reads = []
         for _ in range(rnd.choice([0, 1, 2, 3, 3, 3, 4])):
@@ -1021,7 +1041,7 @@ def nontrivial_tracker(case, obs):
 
 # ----------------------------------------------------------------------------- opcode 90: serde
 SERDE_Q = [0, 1, 2, 4, 5, 10, 12, 13, 15, 24, 25]        # catalogue entries used with serialize_satisfying ((): everything)
-MUT_PARAMS = [0, 1, 2, 3, 4, 5, 7, 100, 1 << 32, (1 << 32) + 3, (1 << 33) + 1, (2 << 32) + 7, (1 << 32) + 40]
+MUT_PARAMS = [0, 1, 2, 3, 4, 5, 7, 100, 1 << 32, (1 << 32) + 3, (1 << 33) + 1, (2 << 32) + 7, (1 << 32) + 40, (1 << 32) - 1, (1 << 32) - 2]
 
 
 def serde_case(universe, rnd, nops, malformed):
@@ -1046,6 +1066,9 @@ def serde_case(universe, rnd, nops, malformed):
                     k = rnd.random()
                     idx = rnd.randrange(0, 14) if k < 0.55 else (rnd.randrange(0, 40) if k < 0.9 else rnd.randrange(0, 110))
                     muts += [idx, rnd.choice([0, 1, 2, 3, 4, 5, 6, 7, 7, 8, 8]), rnd.choice(MUT_PARAMS)]
+                if rnd.random() < 0.12:
+                    # an announced count (entities / components of the first block, or a later number) at the u32 limit
+                    muts += [rnd.choice([2, 3, 3, 3, rnd.randrange(2, 30)]), 0, rnd.choice([(1 << 32) - 1, (1 << 32) - 1, (1 << 32) - 2])]
             g.emit(90, w, rnd.randrange(2), rnd.randrange(2), qi, len(QASTS[qi]), QASTS[qi], len(muts) // 3, muts)
     for w in (0, 1):
         for fmt in (0, 1):
